@@ -124,6 +124,10 @@ def _build_lib(lib, flavor='plain'):
     """compile cola/<lib>/*.cpp from the current working tree into build/obj/<lib>-<flavor>-<hash>/lib.a.
     flavor: plain (-O1 -g), asan (address+undefined), each with -DADAPTAGRAMS_VERIF and USE_ASSERT_EXCEPTIONS
     per DESIGN 2; 'noassertexc' flavors keep abort()-style asserts."""
+    # generated, untracked header that a scratch worktree of /repo lacks
+    cfg = os.path.join(COLA, 'libcola', 'config.h')
+    if not os.path.exists(cfg) and os.path.exists('/repo/cola/libcola/config.h') and os.path.isdir(os.path.dirname(cfg)):
+        shutil.copy('/repo/cola/libcola/config.h', cfg)
     srcs = lib_sources(lib)
     hdrs = []
     for l in [lib] + LIBDEPS[lib]:
@@ -482,6 +486,16 @@ def prove(res, pid, gen_modules=None, extra_targets=()):
     if ok:
         rc, out, err = print_assumptions(prop)
         assum = out.strip()
+    if ok and res.tier == 'thorough':
+        # independent re-check of the compiled property file and everything it depends on (DESIGN 2)
+        with flock('coq'):
+            rc2, out2, err2, dt2 = sh(['coqchk', '-o', '-silent', '-Q', 'theories', 'Adapt', 'Adapt.Properties.%s' % pid],
+                                      cwd=COQ, timeout=1800)
+        txt = (out2 + err2)
+        res.cov['coqchk'] = {'rc': rc2, 'wall_s': round(dt2, 1), 'tail': txt[-1500:].split('\n')}
+        if rc2 != 0:
+            info['ok'] = False
+            info.setdefault('broken', []).append('coqchk failed on Adapt.Properties.%s' % pid)
     res.cov['obligations'] = n_all
     res.cov['discharged'] = n_ok if not ok else n_all
     res.cov['checker_cmd'] = 'make -C /verif/coq -k -j16 %so  (coq_makefile project, full .vo build, coqc 8.16.1)' % prop
